@@ -136,3 +136,73 @@ def bfs(make, apply, events_of, canon, max_depth=None, max_states=None, on_trans
     res["states"] = len(seen)
     res["depth"] = depth
     return res
+
+
+# ---------------------------------------------------------------------------------------------
+# level-synchronous parallel BFS (fork pool); same contract as bfs(), for closures too big for one core
+_PB = {}
+
+
+def _pb_expand(chunk):
+    make, apply, events_of, canon, terminal, static_events = (_PB[k] for k in
+                                                             ("make", "apply", "events_of", "canon", "terminal", "static"))
+    out = []
+    for hist in chunk:
+        def build(h):
+            sim = make()
+            v = []
+            for ev in h:
+                v = apply(sim, ev)
+            return sim, v
+        if static_events is not None:
+            evs = static_events
+        else:
+            sim, _ = build(hist)
+            evs = list(events_of(sim))
+        for ev in evs:
+            sim2, verdicts = build(hist + [ev])
+            term = bool(terminal is not None and terminal(sim2, verdicts))
+            out.append((hist + [ev], None if term else canon(sim2), verdicts))
+    return out
+
+
+def bfs_parallel(make, apply, events_of, canon, jobs=16, max_depth=None, max_states=None, terminal=None,
+                 static_events=None, root=()):
+    import multiprocessing
+    _PB.update(make=make, apply=apply, events_of=events_of, canon=canon, terminal=terminal, static=static_events)
+    sim0 = make()
+    for ev in root:
+        apply(sim0, ev)
+    seen = {canon(sim0)}
+    frontier = [list(root)]
+    res = {"states": 1, "transitions": 0, "depth": 0, "closed": False, "capped": False, "verdicts": []}
+    depth = 0
+    ctx = multiprocessing.get_context("fork")
+    with ctx.Pool(jobs) as pool:
+        while frontier:
+            if max_depth is not None and depth >= max_depth:
+                break
+            n = max(1, min(len(frontier), jobs * 4))
+            chunks = [frontier[i::n] for i in range(n)]
+            nxt = []
+            for part in pool.map(_pb_expand, chunks):
+                for h2, key, verdicts in part:
+                    res["transitions"] += 1
+                    for v in verdicts:
+                        res["verdicts"].append((h2, v))
+                    if key is None:
+                        continue
+                    if key not in seen:
+                        seen.add(key)
+                        nxt.append(h2)
+            if max_states is not None and len(seen) >= max_states:
+                res["capped"] = True
+                break
+            frontier = nxt
+            if nxt:
+                depth += 1
+        else:
+            res["closed"] = True
+    res["states"] = len(seen)
+    res["depth"] = depth
+    return res
